@@ -217,6 +217,41 @@ theorem run_ok_iff (env : Env) (ctxs : List Ctx) (hw : ∀ c ∈ ctxs, Spec.well
           have := hall (j + 1) c' (by simpa using hj)
           simpa [Nat.add_assoc, Nat.add_comm 1 j] using this
 
+/-- The property predicate is tight: it accepts exactly one observation per input — the one the
+script model produces. (So an `oracle run …` line that answers `true` pins the whole observation:
+every invocation, its order, its current context, and the exit status.) -/
+theorem check_determines (env : Env) (ctxs : List Ctx) (hw : ∀ c ∈ ctxs, Spec.wellFormed c) (i : Nat)
+    (log : List (Nat × String)) (ok : Bool) (h : Spec.check env i ctxs log ok = true) :
+    log = (runFrom env i ctxs).log ∧ ok = (runFrom env i ctxs).ok := by
+  induction ctxs generalizing i log with
+  | nil =>
+    simp only [Spec.check, Bool.and_eq_true, List.isEmpty_iff] at h
+    simp [runFrom, h.1, h.2]
+  | cons c cs ih =>
+    have hc := candidates_spec c (hw c (by simp))
+    have ih' := ih (fun c hc => hw c (by simp [hc])) (i + 1)
+    simp only [Spec.check, Spec.chosen] at h
+    simp only [runFrom, hc]
+    cases hf : (Spec.documented c).find? env.defined with
+    | none =>
+      simp only [hf, Bool.and_eq_true, List.isEmpty_iff, Bool.not_eq_true'] at h
+      simp [h.1, h.2]
+    | some g =>
+      simp only [hf] at h
+      cases log with
+      | nil => simp at h
+      | cons e rest =>
+        obtain ⟨j, g'⟩ := e
+        simp only [Bool.and_eq_true, beq_iff_eq] at h
+        obtain ⟨⟨hj, hg⟩, hrest⟩ := h
+        subst hj hg
+        by_cases hfail : env.fails j g' = true
+        · simp only [hfail, if_true, Bool.and_eq_true, List.isEmpty_iff, Bool.not_eq_true'] at hrest
+          simp [hfail, hrest.1, hrest.2]
+        · simp only [hfail, Bool.false_eq_true, if_false] at hrest
+          have := ih' rest hrest
+          simp [hfail, this.1, ← this.2]
+
 /-! Non-vacuity: three contexts, the second handler fails — two invocations, non-zero status. -/
 example :
     let env : Env := { defined := fun n => n == "__on_kubernetes::pods" || n == "__main__",
